@@ -76,6 +76,9 @@ def eval_py(expr, nodes, env=None):
     if tag == "model":
         from reservoirpy.model import Model
         return Model(nodes=[nodes[i] for i in expr[1]], edges=[(nodes[a], nodes[b]) for a, b in expr[2]])
+    if tag == "merge":
+        from reservoirpy.ops import merge
+        return merge(*[eval_py(e, nodes, env) for e in expr[1:]])
     a = eval_py(expr[1], nodes, env)
     b = eval_py(expr[2], nodes, env)
     if tag == ">>":
@@ -88,6 +91,18 @@ def eval_py(expr, nodes, env=None):
         a &= b
         return a
     raise ValueError(tag)
+
+
+def for_model(expr):
+    """merge(a, b, c, ...) is documented as the union of its operands: the model evaluates it as (a & b) & c ..."""
+    if not isinstance(expr, list) or not expr or expr[0] in ("node", "var", "model"):
+        return expr
+    if expr[0] == "merge":
+        out = for_model(expr[1])
+        for e in expr[2:]:
+            out = ["&", out, for_model(e)]
+        return out
+    return [expr[0]] + [for_model(e) for e in expr[1:]]
 
 
 def operand_nodes(expr):
@@ -113,7 +128,9 @@ def gen_expr(g, depth, k):
         ns = g.sample(range(k), g.randint(1, min(4, k)))
         es = [[a, b] for a in ns for b in ns if a != b and g.chance(0.25)]
         return ["model", sorted(ns), es]
-    tag = g.choice([">>", ">>", ">>", "&", "&", "&=", "link"])
+    tag = g.choice([">>", ">>", ">>", "&", "&", "&=", "link", "merge"])
+    if tag == "merge":
+        return ["merge"] + [gen_expr(g, depth - 1, k) for _ in range(g.randint(3, 4))]
     return [tag, gen_expr(g, depth - 1, k), gen_expr(g, depth - 1, k)]
 
 
@@ -127,7 +144,9 @@ def gen_prog(g, k):
             return ["var", g.randint(0, nvars - 1)]
         if depth == 0 or g.chance(0.3):
             return ["node", g.randint(0, k - 1)]
-        tag = g.choice([">>", ">>", "&", "link"])
+        tag = g.choice([">>", ">>", "&", "link", "merge"])
+        if tag == "merge":
+            return ["merge"] + [ex(depth - 1, nvars) for _ in range(3)]
         return [tag, ex(depth - 1, nvars), ex(depth - 1, nvars)]
     for i in range(n):
         if i > 0 and g.chance(0.2):
@@ -167,7 +186,7 @@ def run_prog(stmts, nodes):
 
 def check_progs(ctx, cases):
     nodes = pool(8)
-    outs = ctx.model.batch([{"kind": "graph_prog", "stmts": c["stmts"]} for c in cases])
+    outs = ctx.model.batch([{"kind": "graph_prog", "stmts": [[st[0], st[1], for_model(st[2])] for st in c["stmts"]]} for c in cases])
     for c, mo in zip(cases, outs):
         ob = "program"
         ctx.count(c, nontrivial=True, obligation=ob)
@@ -315,7 +334,7 @@ def check_cases(ctx, cases):
 def _check_cases(ctx, cases):
     k = 8
     nodes = pool(k)
-    mcases = [{"kind": "graph_expr", "expr": c["expr"]} for c in cases]
+    mcases = [{"kind": "graph_expr", "expr": for_model(c["expr"])} for c in cases]
     outs = ctx.model.batch(mcases)
     checks, idx = [], []
     impl = []
